@@ -15,6 +15,11 @@ def key_of(T, v):
         if r is None:
             r = vt.show(vt.strip(v['recv']))
         return f"{r}.{v['f']}()"
+    if kk == 'iflet' and any(x.startswith('Some') for x in v.get('variants', [])):
+        r = T.canon_s(v['scrut'])
+        if r is None:
+            r = vt.show(vt.strip(v['scrut']))
+        return f"{r}.is_some()"
     c = T.canon_s(v)
     if c is not None:
         return c
@@ -64,6 +69,15 @@ def eval3(T, v, asg):
             return eval3(T, v['e'], asg)
         x, y = eval3(T, v['t'], asg), eval3(T, v['e'], asg)
         return x if x == y else None
+    if kk == 'call' and v.get('f') == 'is_empty' and isinstance(v.get('recv'), dict):
+        r = vt.strip(v['recv'])
+        if isinstance(r, dict) and r.get('k') == 'vecof':
+            states = [frames_hold(T, it.get('guard', []), asg) for it in r.get('items', [])]
+            if any(x is True for x in states):
+                return False
+            if all(x is False for x in states):
+                return True
+            return None
     k = key_of(T, v)
     if k is not None and k in asg:
         return asg[k]
@@ -128,6 +142,14 @@ def vocabulary(T, vs):
         if kk == 'cond':
             go(v['c']); go(v['t']); go(v['e'])
             return
+        if kk == 'call' and v.get('f') == 'is_empty' and isinstance(v.get('recv'), dict):
+            r = vt.strip(v['recv'])
+            if isinstance(r, dict) and r.get('k') == 'vecof':
+                for it in r.get('items', []):
+                    for fr in it.get('guard', []):
+                        if fr.get('k') == 'if':
+                            go(fr['c'])
+                return
         k = key_of(T, v)
         if k is not None:
             out.add(k)
